@@ -489,9 +489,10 @@ def run(ctx):
     # whole run of digits, however long, and report the exact value or overflow: the exact-behaviour and None-iff-overflow
     # rules of C13, run here too
     from . import c13
-    r9 = ctx.rule("C07-R9", "the digit scanners pass over every digit of a numeral and report its exact value or overflow, however it is spelled (shared with C13-R1b/R3)", floor=60)
+    r9 = ctx.rule("C07-R9", "the digit scanners pass over every digit of a numeral and report its exact value or overflow, however it is spelled (shared with C13-R1b/R3/R4)", floor=60)
     c13.run_r1b(ctx, r9)
     c13.run_r3(ctx, r9)
+    c13.run_r4(ctx, r9)
     # R6: the byte classes the layout freedoms rest on (LF | CRLF, space | tab) -- the exact behaviour comparison
     # of C16-R3 for text::newline and text::tabs_or_spaces, and their schedule independence (no reader call
     # other than the look-ahead: a CRLF split between two reads must still be one line end)
